@@ -81,7 +81,8 @@ func runC14(res *lib.Result, tier string, seed int64, args []string) error {
 		multiG := pi%3 == 0
 		if multiG {
 			// globals defined as targets of a multiple assignment, also targets without a value of their own
-			base = "abM1, abM2 = pcall(print)\nacM3, acM4 = 1\nbaM5, xM6 = 1, 2\n" + base
+			// … and globals written through _G in this very file
+			base = "abM1, abM2 = pcall(print)\nacM3, acM4 = 1\nbaM5, xM6 = 1, 2\n_G.abM7 = 1\n_G.xM8 = function() end\n" + base
 		}
 		lines := strings.Split(strings.TrimRight(base, "\n"), "\n")
 		for k := 0; k < nPos; k++ {
@@ -282,7 +283,7 @@ func runC14(res *lib.Result, tier string, seed int64, args []string) error {
 				}
 			}
 			if multiG {
-				for _, g := range []string{"abM1", "abM2", "acM3", "acM4", "baM5", "xM6"} {
+				for _, g := range []string{"abM1", "abM2", "acM3", "acM4", "baM5", "xM6", "abM7", "xM8"} {
 					if strings.HasPrefix(g, prefix) && !offered[g] {
 						missing = append(missing, "global "+g)
 					}
